@@ -5,6 +5,7 @@ pub mod c03;
 pub mod c09;
 pub mod c10;
 pub mod c11;
+pub mod c12;
 pub mod c13;
 
 use crate::engine::{Ctx, Report};
@@ -17,6 +18,7 @@ pub fn run(ctx: &Ctx) -> Option<Report> {
         "C09" => c09::run(ctx),
         "C10" => c10::run(ctx),
         "C11" => c11::run(ctx),
+        "C12" => c12::run(ctx),
         "C13" => c13::run(ctx),
         _ => return None,
     })
@@ -31,6 +33,7 @@ pub fn replay(id: &str, case: &serde_json::Value) -> Option<Result<(), String>> 
         "C09" => c09::replay(case),
         "C10" => c10::replay(case),
         "C11" => c11::replay(case),
+        "C12" => c12::replay(case),
         "C13" => c13::replay(case),
         _ => return None,
     })
